@@ -89,6 +89,10 @@ def gen_cfg(rng, real_frac=0.06, allow_long=True, engines=None):
     h5 = {"data": cad(), "coordinates": cad(), "velocities": cad(), "forces": cad()}
     if eng in ("sh", "sh_model"):
         h5["nonadiabatic"] = rng.choice([0, 1, 2, 3])
+    if rng.random() < 0.25:
+        h5["write_mo"] = 1
+    if eng in ("exc_basic", "exc_xl", "xl_esmd") and rng.random() < 0.3:
+        h5["transition_properties"] = 1
     if eng in ("exc_basic", "exc_xl", "xl_esmd"):
         h5["transition_density_matrices"] = rng.choice([0, 1, 2, 3, 4])
     cfg["out"] = {
